@@ -243,13 +243,14 @@ func parsePush(info *types.Info, st ast.Stmt, nObj types.Object, vis, stack *typ
 	if !isUseOf(info, call.Args[0], stack) {
 		return "", "", "append does not extend the stack parameter"
 	}
-	un, ok := call.Args[1].(*ast.UnaryExpr)
-	if !ok || un.Op != token.AND {
-		return "", "", "item is not &stackItem{…}"
+	// the item: &stackItem{…} on a stack of pointers, stackItem{…} on a stack of values
+	var item ast.Expr = call.Args[1]
+	if un, ok := item.(*ast.UnaryExpr); ok && un.Op == token.AND {
+		item = un.X
 	}
-	cl, ok := un.X.(*ast.CompositeLit)
+	cl, ok := item.(*ast.CompositeLit)
 	if !ok || namedOf(info.Types[cl].Type) == nil || namedOf(info.Types[cl].Type).Obj() != stackItem {
-		return "", "", "item is not &stackItem{…}"
+		return "", "", "item is not a stackItem{…} literal"
 	}
 	var field, kind, visName string
 	for _, el := range cl.Elts {
